@@ -80,8 +80,8 @@ class StmtMixin:
     def s_Expr(self, st, fr):
         if isinstance(st.value, ast.Constant):
             return False
-        self.eval(st.value, fr)
-        return False
+        v = self.eval(st.value, fr)
+        return v is tm.NORETURN   # a call that always raises ends the block
 
     def s_Pass(self, st, fr):
         return False
@@ -125,17 +125,25 @@ class StmtMixin:
         return False
 
     def s_Return(self, st, fr):
-        fr.returns.append(self.eval(st.value, fr) if st.value is not None else NONE)
+        v = self.eval(st.value, fr) if st.value is not None else NONE
+        fr.returns.append(v)
+        fr.return_paths.append(tuple(self.path))
+        if len(self.exits) < 20000:
+            self.exits.append(("return", fr.func, st, tuple(self.path), v))
         return True
 
     def s_Raise(self, st, fr):
-        if st.exc is not None:
-            self.eval(st.exc, fr)
+        v = self.eval(st.exc, fr) if st.exc is not None else None
+        if len(self.exits) < 20000:
+            self.exits.append(("raise", fr.func, st, tuple(self.path), v))
         return True
 
     def s_Assert(self, st, fr):
         t = self.eval(st.test, fr)
         self.record("py_branch", t, "assert", None, fr, st)
+        if len(self.exits) < 20000:
+            self.exits.append(("raise", fr.func, st, tuple(self.path) + ((t, False, fr.func),), None))
+        self.path.append((t, True, fr.func))
         return False
 
     def s_Delete(self, st, fr):
@@ -195,12 +203,21 @@ class StmtMixin:
             return self.exec_block(st.body if test.args[0] else st.orelse, fr)
         before = dict(fr.scope.vars)
         nret = len(fr.returns)
+        base = len(self.path)
+        self.path.append((test, True, fr.func))
         ta = self.exec_block(st.body, fr)
+        del self.path[base:]
         a = None if ta else fr.scope.vars
         fr.scope.vars = dict(before)
+        self.path.append((test, False, fr.func))
         tb = self.exec_block(st.orelse, fr)
+        del self.path[base:]
         b = None if tb else fr.scope.vars
         self._merge(fr, test, before, a, b)
+        if ta and not tb:       # the code after the `if` runs only when the test was false
+            self.path.append((test, False, fr.func))
+        elif tb and not ta:
+            self.path.append((test, True, fr.func))
         return ta and tb
 
     def s_For(self, st, fr):
@@ -224,7 +241,9 @@ class StmtMixin:
                 before[n] = v
                 fr.scope.vars[n] = self.map_struct(lambda x: self._wrap1("loopin", x, uid), v)
         self.assign(st.target, self.wrap("elem", it), fr)
+        base = len(self.path)
         self.exec_block(st.body, fr)
+        del self.path[base:]
         for n in names:
             v = fr.scope.lookup(n)
             if v is not None and n in before:
@@ -246,7 +265,9 @@ class StmtMixin:
                 fr.scope.vars[n] = self.map_struct(lambda x: self._wrap1("loopin", x, uid), v)
         test = self.eval(st.test, fr)
         self.record("py_branch", test, "while", None, fr, st)
+        base = len(self.path)
         self.exec_block(st.body, fr)
+        del self.path[base:]
         for n in names:
             v = fr.scope.lookup(n)
             if v is not None and n in before:
